@@ -450,7 +450,7 @@ fn run_random(def: &PropDef, r: &RandomDef, cfg: &RunCfg, listed: &BTreeSet<Stri
     let id_hash = super::tape::hash_bytes(def.id.as_bytes());
     let seed = cfg.seed;
 
-    let results: Vec<(Stats, Option<(Vec<u32>, String)>, u64)> = std::thread::scope(|s| {
+    let results: Vec<(Stats, Option<(Vec<u32>, String)>, u64, u64)> = std::thread::scope(|s| {
         let handles: Vec<_> = (0..nshards)
             .map(|shard| {
                 let listed = listed.clone();
@@ -475,12 +475,15 @@ fn run_random(def: &PropDef, r: &RandomDef, cfg: &RunCfg, listed: &BTreeSet<Stri
                     let mut runner = TestRunner::new_with_rng(config, rng);
                     let st = RefCell::new(Stats::new(listed));
                     let failed = std::cell::Cell::new(false);
+                    let ncases = std::cell::Cell::new(0u64);
                     // tapes: mostly full length, sometimes short (short tapes decode their tail as zeros)
                     let strat = vec(any::<u32>(), (tape_len / 4)..=tape_len);
                     let res = runner.run(&strat, |tape| {
                         let mut st = st.borrow_mut();
                         if failed.get() {
                             st.recording = false;
+                        } else {
+                            ncases.set(ncases.get() + 1);
                         }
                         match run_case(exec, &tape, Mode::Scaled, &mut st) {
                             Ok(()) => Ok(()),
@@ -496,7 +499,7 @@ fn run_random(def: &PropDef, r: &RandomDef, cfg: &RunCfg, listed: &BTreeSet<Stri
                         Err(TestError::Fail(reason, tape)) => Some((tape, reason.message().to_string())),
                         Err(TestError::Abort(reason)) => Some((vec![], format!("proptest aborted: {}", reason.message()))),
                     };
-                    (st.into_inner(), fail, shard)
+                    (st.into_inner(), fail, shard, ncases.get())
                 })
             })
             .collect();
@@ -504,7 +507,9 @@ fn run_random(def: &PropDef, r: &RandomDef, cfg: &RunCfg, listed: &BTreeSet<Stri
     });
     let mut stats = Stats::new(listed.clone());
     let mut first: Option<(Vec<u32>, String, u64)> = None;
-    for (st, f, shard) in results {
+    let mut cases_executed = 0u64;
+    for (st, f, shard, n) in results {
+        cases_executed += n;
         stats.merge(st);
         if let Some((tape, msg)) = f {
             // keep the shortest reproduction
@@ -531,7 +536,7 @@ fn run_random(def: &PropDef, r: &RandomDef, cfg: &RunCfg, listed: &BTreeSet<Stri
             from_file: None,
         }
     });
-    let info = json!({"stage": r.name, "kind": "random (proptest, shrinking)", "cases_requested": total,
+    let info = json!({"stage": r.name, "kind": "random (proptest, shrinking)", "cases_requested": total, "cases_executed_before_any_failure": cases_executed,
         "shards": nshards, "tape_len": tape_len, "evaluations": stats.evaluations});
     StageOut {
         stats,
